@@ -1,21 +1,24 @@
 import DryocVerif.Model.SecretStream
 import DryocVerif.Model.RawOps
 /-
-Code-shaped model of `crypto_secretstream_xchacha20poly1305_pull`
-(/repo/src/classic/crypto_secretstream_xchacha20poly1305.rs) and `DryocStream::pull`
+Code-shaped models of `crypto_secretstream_xchacha20poly1305_pull` and `…_push`
+(/repo/src/classic/crypto_secretstream_xchacha20poly1305.rs) and of `DryocStream::pull` / `DryocStream::push`
 (/repo/src/dryocstream.rs): the Rust statements in source order, every operation that can panic
 written as a checked operation of `Model.Raw` (its failing branch is `Outcome.panic`).
 
-`Model.SecretStream.pull` (the model the driver runs and all functional theorems are about) uses
-total list operations and truncated subtraction; `Proofs/RawExtra.lean` proves that the two agree,
-i.e. that none of the `panic` branches below is reachable — from the guards that precede them, not by
-construction.  The `…Old` variants are the code before the fixes E5 (length guard) and "pull keeps undefined tag bits"
-(`Tag::from_bits(..).expect`) and DO panic.
+`Model.SecretStream.pull` / `push` (the models the driver runs and all functional theorems are about) use
+total list operations and truncated subtraction; `Proofs/RawExtra.lean` and `Proofs/StreamPushRawExtra.lean`
+prove that the two agree up to the key-stream limit of the ChaCha20 crate, i.e. that none of the `panic`
+branches below is reachable — from the guards that precede them, not by construction — EXCEPT the last
+`apply_keystream` for inputs within 64 bytes of `MESSAGEBYTES_MAX` (`pullRaw_panics_near_max`,
+`pushRaw_panics_near_max`: the crate hands out `u32::MAX − 2` blocks after `seek(128)`, the guard of the source
+allows `u32::MAX − 1`).  The `…Old` variants are the code before the fixes E5 (length guard) and "pull keeps
+undefined tag bits" (`Tag::from_bits(..).expect`) and DO panic.
 
 Fixed-size arrays (`state.k : [u8; 32]`, `state.nonce : [u8; 12]`, `block : [u8; 64]`) indexed by
 constants are not given panic branches: those bounds are checked by the Rust compiler.  The state update
-after a message has been accepted (`xor_buf`, `increment_bytes`, `rekey`: fixed-size arrays only) is the
-existing `advance`.
+after a message has been accepted (`xor_buf`, `increment_bytes`, `rekey`: fixed-size arrays only; the 40-byte
+key-stream request of `rekey` starts at block 0 of a fresh cipher and cannot fail) is the existing `advance`.
 -/
 namespace DryocVerif.Model.SecretStream
 open DryocVerif DryocVerif.Model.Utils DryocVerif.Model.Raw
@@ -25,14 +28,28 @@ open scoped DryocVerif.Model.Raw
 `= min(SODIUM_SIZE_MAX - ABYTES, 64 * (2^32 - 2))` on a 64-bit target -/
 def MESSAGEBYTES_MAX_RAW : Nat := 64 * (2 ^ 32 - 2)
 
-/-- ChaCha20-IETF has a 32-bit block counter: 2^32 blocks of 64 bytes -/
+/-- ChaCha20-IETF has a 32-bit block counter: the whole key stream is 2^32 blocks of 64 bytes.  NOT the limit
+the crate enforces (see `keystream`); kept for reference only. -/
 def KEYSTREAM_MAX : Nat := 64 * 2 ^ 32
 
-/-- `cipher.seek(pos); cipher.apply_keystream(&mut buf)` with `buf.len() = len`: the key-stream bytes
-XORed into `buf`.  `apply_keystream` is `try_apply_keystream(..).unwrap()`: it panics when the request
-runs past the last block of the key stream. -/
-def keystream (P : Prims) (s : State) (pos len : Nat) : Outcome Bytes :=
-  if pos + len > KEYSTREAM_MAX then .panic else .ok (P.chacha s.k s.nonce (pos / 64) len)
+/-- `u32::MAX` -/
+def U32_MAX : Nat := 2 ^ 32 - 1
+
+/-- the longest message body whose key stream (taken after `cipher.seek(128)`, i.e. from block 2) the crate
+hands out: `remaining_blocks = u32::MAX - 2` blocks, `64 · (2^32 − 3)` bytes.  This is 64 bytes LESS than
+`MESSAGEBYTES_MAX_RAW = 64 · (2^32 − 2)`, the bound the dryoc source checks. -/
+def STREAM_BODY_MAX : Nat := 64 * (2 ^ 32 - 3)
+
+/-- `cipher.seek(pos); cipher.apply_keystream(&mut buf)` with `buf.len() = len`, for a block-aligned `pos`
+(all call sites: a fresh cipher, `seek(64)`, `seek(128)` — `try_seek` then sets the core's block counter to
+`pos / 64` and the wrapper's byte position to 0): the key-stream bytes XORed into `buf`.
+`apply_keystream` is `try_apply_keystream(..).unwrap()`, and `try_apply_keystream_inout` starts with
+`self.check_remaining(data.len())?` (crate `cipher` 0.4.4), where for ChaCha20 0.9.1
+`remaining_blocks() = u32::MAX - block_pos` — NOT `2^32 - block_pos`: the last block of the 2^32-block
+key stream is never handed out.  So the call panics iff `ceil(len / 64) > 2^32 − 1 − pos / 64`. -/
+def keystream (P : Prims) (s : State) (pos len : Nat) : Outcome Bytes := do
+  checkRemaining (U32_MAX - pos / 64) 0 len
+  pure (P.chacha s.k s.nonce (pos / 64) len)
 
 /-- the 16-byte `size_data` block:
 `size_data[..8].copy_from_slice(&adlen.to_le_bytes()); size_data[8..16].copy_from_slice(&total.to_le_bytes())` -/
@@ -122,6 +139,84 @@ def pullRaw (P : Prims) (s : State) (m : Bytes) (tagv : UInt8) (ct ad : Bytes) :
 def pullRawOld (P : Prims) (s : State) (m : Bytes) (tagv : UInt8) (ct ad : Bytes) : Pulled :=
   pullRawWith false P s m tagv ct ad
 
+/-! ### push, code-shaped -/
+
+/-- `x[a..b] = new` for a range that has been checked with `slice x a b` -/
+def writeSlice (x : Bytes) (a b : Nat) (new : Bytes) : Bytes := x.take a ++ new ++ x.drop b
+
+/-- `mac.finalize(&mut out)` (/repo/src/poly1305/poly1305_soft.rs):
+`output[0..8].copy_from_slice(&h0.to_le_bytes()); output[8..16].copy_from_slice(&h1.to_le_bytes())`,
+the two 8-byte halves of the authenticator `mac`; the result is `out` afterwards -/
+def finalizeInto (out mac : Bytes) : Outcome Bytes := do
+  let lo ← slice out 0 8
+  let lo ← copyFromSlice lo (mac.take 8)
+  let hi ← slice out 8 16
+  let hi ← copyFromSlice hi ((mac.drop 8).take 8)
+  pure (lo ++ hi ++ out.drop 16)
+
+/-- body of `crypto_secretstream_xchacha20poly1305_push(state, ciphertext, message, ad, tag)` in source
+order; `ct` is the caller's ciphertext buffer, the result is its content and the state afterwards.
+Both `return Err(..)` come before the first write. -/
+def pushRawBody (P : Prims) (s : State) (ct msg ad : Bytes) (tag : UInt8) : Outcome (Bytes × State) := do
+  let pad0 := zeros 16
+  -- `if ciphertext.len() != message.len() + ABYTES { return Err }`
+  let need ← checkedAdd msg.length ABYTES
+  errIf (ct.length ≠ need)
+  -- `if message.len() > MESSAGEBYTES_MAX { return Err }`
+  errIf (msg.length > MESSAGEBYTES_MAX_RAW)
+  -- `cipher.apply_keystream(&mut mac_key)`; `Poly1305::new(&mac_key)`
+  let macKey ← keystream P s 0 32
+  -- `mac.update(associated_data); mac.update(&_pad0[..pad16(associated_data.len())])`
+  let u1 := ad
+  let u2 ← sliceTo pad0 (pad16 ad.length)
+  -- `block[0] = tag; cipher.seek(64); cipher.apply_keystream(&mut block); mac.update(&block)`
+  let ks ← keystream P s 64 64
+  let block := xorBytes (tag :: zeros 63) ks
+  let u3 := block
+  let mlen := msg.length
+  -- `ciphertext[0] = block[0]`
+  let ct ← setIndex ct 0 (block.headD 0)
+  -- `ciphertext[1..(1 + mlen)].copy_from_slice(message)`
+  let e ← checkedAdd 1 mlen
+  let dst ← slice ct 1 e
+  let dst ← copyFromSlice dst msg
+  let ct := writeSlice ct 1 e dst
+  -- `cipher.seek(128); cipher.apply_keystream(&mut ciphertext[1..(1 + mlen)])`
+  let e ← checkedAdd 1 mlen
+  let body ← slice ct 1 e
+  let ks ← keystream P s 128 body.length
+  let ct := writeSlice ct 1 e (xorBytes body ks)
+  -- `size_data`, with `block.len() + mlen`
+  let total ← checkedAdd 64 mlen
+  let u6 ← sizeDataRaw ad.length total
+  -- `mac.update(&ciphertext[1..(1 + mlen)])`
+  let e ← checkedAdd 1 mlen
+  let u4 ← slice ct 1 e
+  -- `((0x10 - block.len() as i64 + mlen as i64) & 0xf) as usize`; `mac.update(&_pad0[0..buffer_mac_pad])`
+  let t ← checkedAddI64 (0x10 - 64) (asI64 mlen)
+  let bufferMacPad := (t % 16).toNat
+  let u5 ← slice pad0 0 bufferMacPad
+  -- `mac.update(&size_data); mac.finalize(&mut ciphertext[1 + mlen..])`
+  let mac := P.mac macKey (u1 ++ u2 ++ u3 ++ u4 ++ u5 ++ u6)
+  let e ← checkedAdd 1 mlen
+  let out ← sliceFrom ct e
+  let out ← finalizeInto out mac
+  let ct := ct.take e ++ out
+  -- `xor_buf(inonce, &ciphertext[1 + mlen..])`, counter increment, rekey: `advance`
+  let e ← checkedAdd 1 mlen
+  let written ← sliceFrom ct e
+  pure (ct, advance P s written tag)
+
+/-- the classic `push` as it is in the source -/
+def pushRaw (P : Prims) (s : State) (ct msg ad : Bytes) (tag : UInt8) : Outcome (Bytes × State) :=
+  pushRawBody P s ct msg ad tag
+
+/-- `DryocStream<Push>::push` in source order: `ciphertext.resize(message.len() + ABYTES, 0)`, the classic
+`push` on `&mut self.state`, `?`, `Ok(ciphertext)` -/
+def objPushRaw (P : Prims) (s : State) (msg ad : Bytes) (tag : UInt8) : Outcome (Bytes × State) := do
+  let n ← checkedAdd msg.length ABYTES
+  pushRaw P s (zeros n) msg ad tag
+
 /-! ### object layer -/
 
 /-- `Tag::from_bits(b)`: `None` when a bit outside `MESSAGE | PUSH | REKEY | FINAL = 0b11` is set -/
@@ -129,7 +224,10 @@ def tagFromBits (b : UInt8) : Option UInt8 := if b &&& 0xFC = 0 then some b else
 
 /-- `DryocStream<Pull>::pull` in source order.  `retain = true`: `Tag::from_bits_retain(tag)` (current
 source, total); `retain = false`: `Tag::from_bits(tag).expect("invalid tag")` (before the fix "pull keeps undefined tag bits").
-`lengthGuard` as above (fix E5 added the same guard here). -/
+`lengthGuard` as above (fix E5 added the same guard here).
+The classic `pull` works on `&mut self.state` and the `?` returns early: the state afterwards is whatever the
+classic function left (`r.st`), on every branch — nothing restores it.  (`pullRawWith` itself reports the
+state it was given on `Err`, because every `return Err` of the classic function precedes its first write.) -/
 def objPullRawWith (lengthGuard retain : Bool) (P : Prims) (s : State) (ct ad : Bytes) :
     Outcome (Bytes × UInt8) × State :=
   if lengthGuard ∧ ct.length < ABYTES then (.err, s)
@@ -145,8 +243,8 @@ def objPullRawWith (lengthGuard retain : Bool) (P : Prims) (s : State) (ct ad : 
           | .ok t => (.ok (r.buf, t), r.st)
           | .err => (.err, r.st)
           | .panic => (.panic, r.st)           -- the state has already advanced
-      | .err => (.err, s)
-      | .panic => (.panic, s)
+      | .err => (.err, r.st)               -- `?`: whatever the classic `pull` left in `self.state`
+      | .panic => (.panic, r.st)
     | .err => (.err, s)
     | .panic => (.panic, s)
 
